@@ -83,6 +83,10 @@ def pairs() -> dict:
         "delete/create_study_same_name": (("delete_study", "S1"), ("create_new_study", ["MINIMIZE"], "NAME1")),
         "study_attr/study_attr": (("set_study_user_attr", "S0", "a", "A1"), ("set_study_user_attr", "S0", "b", "B1")),
         "study_attr/read": (("set_study_system_attr", "S0", "a", "A1"), ("get_study_system_attrs", "S0")),
+        # the first call is REJECTED (error path) while the second worker's write lands between its append and its read-back
+        "rejected_attr/create": (("set_trial_user_attr", "T2", "a", "A1"), ("create_new_trial", "S0", None)),
+        "rejected_create_study/create": (("create_new_study", ["MINIMIZE"], "NAME1"), ("create_new_trial", "S0", None)),
+        "rejected_finish/attr": (("set_trial_state_values", "T2", "COMPLETE", [9.0]), ("set_trial_user_attr", "T0", "b", "B1")),
         "read/read_after_foreign_write": (("get_all_trials", "S0", None, "tuple", False), ("get_all_trials", "S0", None, "tuple", True)),
         # the reader is preempted INSIDE copy.deepcopy (the copy module is monitored for these pairs) while the other
         # thread completes two ordered writes on either side of the copy position
@@ -177,8 +181,66 @@ def read_ops(sc: dict, model: RefStorage) -> list[tuple]:
     return ops
 
 
+def read_shows_unwritten(events: list, model0: RefStorage, bind0: X.Binding) -> str | None:
+    """'No value out of thin air' for reads: the state of every trial a read returned must be a state some call of the history
+    (or the initial scene) gave that trial, and a trial created from a template must carry the template's parameters and user
+    attributes from the first moment it is visible.  (A read torn across several SELECTs - finding F23 - mixes old and new
+    components but cannot show a state nobody wrote or a committed trial row without its template's fields.)"""
+    states: dict = {}
+    templ: dict = {}
+    for impl, mid in bind0.rtid.items():
+        if mid in model0.trials:
+            states.setdefault(impl, set()).add(model0.trials[mid].state)
+    unknown_creates = False
+    for e in events:
+        op, out = e["op"], e["out"]
+        if op[0] == "create_new_trial":
+            if out is None:
+                unknown_creates = True
+            elif out[0] == "ok":
+                t = op[2] if len(op) > 2 else None
+                states.setdefault(out[1], set()).add("RUNNING" if t is None else t["state"])
+                if t is not None:
+                    templ[out[1]] = t
+        elif op[0] == "set_trial_state_values" and isinstance(op[1], int):
+            states.setdefault(op[1], set()).add(op[2])
+    for e in events:
+        out = e["out"]
+        if out is None or out[0] != "ok" or e["op"][0] not in ("get_all_trials", "get_trial"):
+            continue
+        trials = out[1] if isinstance(out[1], list) else [out[1]]
+        for t in trials:
+            tid = getattr(t, "_trial_id", None)
+            if tid is None:
+                continue
+            if tid not in states:
+                if unknown_creates:
+                    continue
+                return f"{e['op'][0]} returned trial id {tid} that no call created"
+            if t.state.name not in states[tid]:
+                return f"{e['op'][0]} returned trial {t.number} in state {t.state.name}; the only states ever given to it are {sorted(states[tid])}"
+            tp = templ.get(tid)
+            if tp is not None and (not set(tp["params"]) <= set(t.params) or not set(tp["user_attrs"]) <= set(t.user_attrs)):
+                return (f"{e['op'][0]} returned trial {t.number} (created from a template with params {sorted(tp['params'])}, user attrs "
+                        f"{sorted(tp['user_attrs'])}) with params {sorted(t.params)}, user attrs {sorted(t.user_attrs)}")
+    return None
+
+
 def judge(ctx: Ctx, events: list, model0: RefStorage, bind0: X.Binding, kind: str, facts: dict, case: dict) -> None:
     fam = backends.family_of(kind)
+    for e in events:
+        why = e.get("open_reason")
+        if why is None:
+            continue
+        if fam == "sqlite" and "locked" in why:
+            ctx.count("open_ops_sqlite_database_locked")   # environment: SQLite busy timeout under a paused writer
+            continue
+        # nothing was injected in this check: an exception that is not part of the storage contract is not the answer of any
+        # sequential run (the call stays an open operation for the linearizability search below)
+        ctx.violation({"kind": "call_raised_non_contract_exception", "backend_family": fam, "via_grpc": kind.startswith("grpc:"), "exc": why.split(":")[0],
+                       "op": e["op"][0], **facts}, f"{e['op'][0]} raised {why[:300]} under mere concurrency (thread {e.get('thread')})", case,
+                      {"history": linz.describe(events)})
+        break
     res = linz.check(events, model0, bind0)
     ctx.count("histories_checked")
     ctx.count("linz_nodes", res["nodes"])
@@ -200,10 +262,12 @@ def judge(ctx: Ctx, events: list, model0: RefStorage, bind0: X.Binding, kind: st
                                                       for o in events)
             ev2.append({**e, "out": None} if overl else e)
         torn = linz.check(ev2, model0, bind0, relaxed=True)
+    thin_air = read_shows_unwritten(events, model0, bind0)
     ctx.violation({"kind": "not_linearizable", "backend_family": fam, "via_grpc": kind.startswith("grpc:"),
                    "linearizable_if_sqlite_state_check_reads_stale": rel["verdict"] == "ok",
-                   "linearizable_if_sqlite_reads_overlapping_writes_are_torn": torn["verdict"] == "ok", **facts},
-                  f"no linearization of the recorded history is consistent with the storage contract ({facts})", case,
+                   "linearizable_if_sqlite_reads_overlapping_writes_are_torn": torn["verdict"] == "ok",
+                   "read_shows_state_or_template_fields_nobody_wrote": thin_air is not None, **facts},
+                  f"no linearization of the recorded history is consistent with the storage contract ({facts})" + (f"; {thin_air}" if thin_air else ""), case,
                   {"history": linz.describe(events), "longest_consistent_prefix": res.get("longest_consistent_prefix")})
 
 
@@ -257,6 +321,15 @@ def explore(ctx: Ctx, s: sched.Sched, kind: str, two: bool, pname: str, pair: tu
                 X.run_impl(w.c2, ("get_all_trials", sc["S0"], None, "tuple", False), w.bind)  # warm the second client's cache
             model0, bind0 = w.model.clone(), __import__("copy").deepcopy(w.bind)
             evs: dict = {}
+            aged = False
+            if kind.startswith("journal_file") and w.n % 2 == 0:
+                # every other scene: nobody has appended to the journal for two minutes (workers were busy in their objectives)
+                import os
+
+                old = time.time() - 120
+                os.utime(w.store.journal_path(), (old, old))
+                aged = True
+                ctx.count("schedules_on_an_aged_journal")
 
             def A():
                 evs["a"] = timed(w.c1, opA, w.bind, "A")
@@ -286,7 +359,7 @@ def explore(ctx: Ctx, s: sched.Sched, kind: str, two: bool, pname: str, pair: tu
             for rop in read_ops(sc, w.model):
                 events.append(timed(w.c1 if len(events) % 2 else w.c2, rop, w.bind, "R"))
             case = {"driver": "single_preemption", "backend": kind, "two_storage_objects": w.c2 is not w.c1, "pair": pname,
-                    "paused_at": None if target is None else f"{target[0].co_qualname}:{target[1]}#{target[2]}", "seed": ctx.seed}
+                    "paused_at": None if target is None else f"{target[0].co_qualname}:{target[1]}#{target[2]}", "journal_aged": aged, "seed": ctx.seed}
             ctx.case(case, bool(r["b_inside_window"]) or target is None)
             n_before = len(ctx.violations)
             judge(ctx, events, model0, bind0, kind, {"driver": "single_preemption", "pair": pname, "b_completed_inside_window": bool(r["b_inside_window"])}, case)
@@ -539,7 +612,8 @@ def run(ctx: Ctx) -> None:
         P = pairs()
         names = list(P)
         core = [(0, pn) for pn in names]  # in-memory: every pair, every tier
-        for ci, pns in ((2, ["create/create", "create/create_2studies", "claim/claim", "attr/attr_other_key", "finish/attr", "create_study/create_study_same_name", "delete/create_trial"]),
+        for ci, pns in ((2, ["create/create", "create/create_2studies", "claim/claim", "attr/attr_other_key", "finish/attr", "create_study/create_study_same_name", "delete/create_trial",
+                             "rejected_attr/create", "rejected_create_study/create"]),
                         (6, ["create_study/create_study_same_name", "create/create", "claim/claim"]),
                         (4, ["create/read", "create_finished_template/read", "read/read_after_foreign_write", "finish/attr"]),
                         (8, ["claim/claim", "create/create", "read/read_after_foreign_write"]),
